@@ -74,7 +74,7 @@ def check_c11(pid, tier):
         rs = vlib.run_tlc("Mirrored", mirror_cfg(repl, maxops=2, view=False, emit=True, props=False), marker_sink=lambda m, o: hists.append(o), timeout=3000)
         if not rs.ok:
             raise Broken("Mirrored enumeration failed: %s %s" % (rs.violated, rs.error))
-        rs = vlib.run_tlc("Mirrored", mirror_cfg(repl, maxops=5, view=False, emit=True, props=False), mode="simulate", sim_num=200 if quick else 3000,
+        rs = vlib.run_tlc("Mirrored", mirror_cfg(repl, maxops=5, view=False, emit=True, props=False), mode="simulate", sim_num=200 if quick else 20000,
                           sim_depth=8, sim_seed=sd * 13 + len(repl), workers=1, marker_sink=lambda m, o: hists.append(o), timeout=3000)
         if not rs.ok:
             raise Broken("Mirrored simulation failed: %s %s" % (rs.violated, rs.error))
@@ -127,7 +127,7 @@ def check_c18(pid, tier):
     quick = tier == "quick"
     cases = os.path.join(work, "cases.ndjson")
     fh = open(cases, "w")
-    r = vlib.run_tlc("Authorizing", "INIT Init\nNEXT Next\nCONSTANTS\n Depth = %d\nINVARIANTS AnyAlgebra Emit\n" % (1 if quick else 2),
+    r = vlib.run_tlc("Authorizing", "INIT Init\nNEXT Next\nCONSTANTS\n Depth = %d\nINVARIANTS AnyAlgebra Emit\n" % (1 if quick else 3),
                      raw_sink=lambda m, raw: fh.write(raw + "\n"), timeout=3000)
     fh.close()
     vlib.require_model_ok(r, "Authorizing")
